@@ -433,7 +433,8 @@ def div_literals(expr, fp_arithmetic=False):
         return sym.Product((-1, div_literals(q, fp_arithmetic=fp_arithmetic)))
 
     if isinstance(expr.numerator, sym.FloatLiteral) or isinstance(expr.denominator, sym.FloatLiteral):
-        if not fp_arithmetic:
+        literal_types = (sym.IntLiteral, sym.FloatLiteral)
+        if not fp_arithmetic or not all(isinstance(e, literal_types) for e in (expr.numerator, expr.denominator)):
             return expr
         return sym.Literal(float(expr.numerator.value) / float(expr.denominator.value))
 
